@@ -34,6 +34,9 @@ TABLE_NOTE = ('Bounded small-scope domain (constants in the evidence); the abstr
 EXTRA = {
     'C06': ('5/C06', 'Topology.tla defines one resolution function R from (process location, port kind, topology entry, variable) to a hierarchy node for leaf/branch/nested/glob/output ports and path / _path-dictionary topologies; TLC enumerates every well-formed combination and exports R; one real Engine per case: the view must show exactly the values of the nodes R names and after one update exactly those nodes changed, by the sum of the amounts of the variables wired to them.', TABLE_NOTE, TECH_TABLE),
     'C15': ('5/C15', 'InitState.tla (on Topology.tla) gives, for every case and every subset of nodes named in the initial state, the value every declared node must hold (explicit or default), and classifies pairs of declarations of one variable as compatible or not; each is executed through Engine, generate_state, Composite.initial_state/default_state/generate_store.', TABLE_NOTE, TECH_TABLE),
+    'C07': ('5/C07', 'Store.tla specifies the hierarchy under structural updates; every tick of every enumerated/random structural history is projected and validated by StoreTrace.tla, including what the director (glob ports on both branches) and an observer (glob port restricted to one declared sub-variable, plain port, output port) saw at the start of the tick; in addition every Topology.tla case is checked for the exact shape of the states dictionary.', 'Bounded: Store.tla constants in the evidence; all timesteps 1 and the director listed first; projection code (vv/store_run.py) is trusted.', TECH),
+    'C09': ('5/C09', 'TLC checks frame and effect conditions of _add/_delete (key and path form)/_generate/_divide/_move and combined updates on Store.tla; every tick of every enumerated/random structural history run on the real engine is projected (tree shape, values, node identities) and validated by StoreTrace.tla.', 'Bounded: Store.tla constants in the evidence; all timesteps 1 and the director listed first; projection code (vv/store_run.py) is trusted.', TECH),
+    'C10': ('5/C10', 'TLC checks on Store.tla that derivers are registered once and exactly the processes and steps of the hierarchy run each tick; StoreTrace.tla validates per tick the engine bookkeeping (process paths, step paths, deriver list, step graph), the published composite (Engine.processes/steps/flow/topology) and Store.get_processes/get_steps/get_flow against the observed hierarchy, the set of invocations and the step counters.', 'Bounded: Store.tla constants in the evidence; all timesteps 1 and the director listed first; projection code (vv/store_run.py) is trusted.', TECH),
     'C08': ('5/C08', 'Updaters.tla defines each updater, overrides, batches (left fold), _multi_update, merge, dict_value and unit handling; TLC checks the algebraic laws on every enumerated case and exports the expected results; each case is executed through Store.apply_update with int/float/numpy/quantity carriers, also checking that unmentioned variables and the update object are untouched.', TABLE_NOTE, TECH_TABLE),
     'C18': ('5/C18', 'Timeseries.tla defines raw data, the embedded and path timeseries and query results over value atoms that include the falsy values and quantities; TLC checks alignment / read-back / query-completeness laws on every enumerated history and exports the expected views; each history is pushed through a real RAMEmitter and get_data(query), get_data_deserialized, get_data_unitless, get_timeseries, get_path_timeseries and the *_from_data converters are compared.', TABLE_NOTE, TECH_TABLE),
     'C19': ('5/C19', 'Timeline.tla is a behavioural specification of the timeline process (events fire at the first tick whose clock reached them, exactly once, merged in time order); TLC checks on-time/exactly-once/order-freeness over every timeline (all listing orders) x timestep x run length, ties the behaviours to the exported row table (RowsAgree), and every run is executed in a real Engine (TimelineProcess wired by hand and through add_timeline) and compared row by row.', TABLE_NOTE, 'TLA+ behavioural specification + TLC model checking + replay of every TLC-computed behaviour into the implementation'),
